@@ -7,16 +7,18 @@ Import ListNotations.
 From PP Require Import Model.C45 Proofs.C45.
 
 (* Prefix code: for ANY leaf type and token type, if leaf keys are single tokens that are
-   injective and never equal to an operation token, and operation tokens are injective,
-   then the key of a tree built from two-children operation nodes identifies the tree. *)
+   injective and never equal to an operation token, operation tokens are injective and the
+   function token of an evaluate node determines function and arity, then the key identifies
+   the tree - ALL trees: two-children operation nodes and function nodes of any arity. *)
 Theorem C45_prefix_injective :
-  forall (L T : Type) (leafkey : L -> T) (optok : string -> T),
+  forall (L T : Type) (leafkey : L -> T) (optok : string -> T) (functok : string -> nat -> T),
     (forall a b, leafkey a = leafkey b -> a = b) ->
     (forall s t, optok s = optok t -> s = t) ->
+    (forall f g n m, functok f n = functok g m -> f = g /\ n = m) ->
     (forall a s, leafkey a <> optok s) ->
-    forall t1 t2 : tree L, eval_free t1 = true -> eval_free t2 = true ->
-      key leafkey optok t1 = key leafkey optok t2 -> t1 = t2.
-Proof. exact key_injective. Qed.
+    forall t1 t2 : tree L,
+      key leafkey optok functok t1 = key leafkey optok functok t2 -> t1 = t2.
+Proof. exact key_injective_all. Qed.
 Print Assumptions C45_prefix_injective.
 
 (* Structurally identical trees over the same leaf data have equal keys and equal hashes
@@ -41,49 +43,42 @@ Theorem C45_leaf_keys_injective :
 Proof. exact leaf_key_inj. Qed.
 Print Assumptions C45_leaf_keys_injective.
 
-(* Trees that differ (in shape, operation, child order or any leaf datum) have different
-   keys -- for all trees without function-evaluation nodes.  PARTIAL: the guard
-   [eval_free] excludes exactly the region refuted below. *)
-Theorem C45_distinct_trees_distinct_keys_partial :
+(* Trees that differ (in shape, operation, child order, function, number of arguments or
+   any leaf datum) have different keys - ALL trees over the leaf classes of operators.py,
+   function-evaluation nodes included (full statement; the guard of the earlier _partial
+   version is gone with the repair of the evaluate-node key). *)
+Theorem C45_distinct_trees_distinct_keys :
   forall (digest : Type) (sha : buffer -> digest),
     (forall a b, sha a = sha b -> a = b) ->
-    forall t1 t2 : tree leaf, eval_free t1 = true -> eval_free t2 = true ->
-      (okey digest sha t1 = okey digest sha t2 <-> t1 = t2).
+    forall t1 t2 : tree leaf, okey digest sha t1 = okey digest sha t2 <-> t1 = t2.
 Proof. exact okey_iff. Qed.
-Print Assumptions C45_distinct_trees_distinct_keys_partial.
+Print Assumptions C45_distinct_trees_distinct_keys.
 
-(* The full statement is false of the faithful model: the key of a function-evaluation
-   node records neither the function ... *)
-Theorem C45_distinct_trees_distinct_keys_refuted :
+(* The key construction BEFORE that repair ('evaluate' + children keys) did not identify
+   function nodes: exp(x) / log(x) and f(g(x), y) / f(g(x, y)) collide under it.  Kept as the
+   record of the finding; the corpus holds the same two witnesses. *)
+Theorem C45_old_evaluate_key_refuted :
   forall (digest : Type) (sha : buffer -> digest),
-    exists t1 t2 : tree leaf, t1 <> t2 /\ okey digest sha t1 = okey digest sha t2.
+    let ok := old_key (leaf_key digest sha) TOp in
+    (exists t1 t2 : tree leaf, t1 <> t2 /\ ok t1 = ok t2) /\
+    (exists (f g : string) (x y : tree leaf),
+        Eval f [Eval g [x]; y] <> Eval f [Eval g [x; y]] /\
+        ok (Eval f [Eval g [x]; y]) = ok (Eval f [Eval g [x; y]])).
 Proof.
-  intros digest sha. exists (Eval "exp" [wit_x]), (Eval "log" [wit_x]).
-  exact (eval_function_collision digest sha).
+  intros digest sha ok. destruct (old_key_collisions digest sha) as [[N1 E1] [N2 E2]]. split.
+  - exists (Eval "exp" [wit_x]), (Eval "log" [wit_x]). split; assumption.
+  - exists "f"%string, "g"%string, wit_x, wit_y. split; assumption.
 Qed.
-Print Assumptions C45_distinct_trees_distinct_keys_refuted.
+Print Assumptions C45_old_evaluate_key_refuted.
 
-(* ... nor the number of its arguments: f(g(x), y) and f(g(x, y)), same functions. *)
-Theorem C45_distinct_trees_distinct_keys_arity_refuted :
-  forall (digest : Type) (sha : buffer -> digest),
-    exists (f g : string) (x y : tree leaf),
-      Eval f [Eval g [x]; y] <> Eval f [Eval g [x; y]] /\
-      okey digest sha (Eval f [Eval g [x]; y]) = okey digest sha (Eval f [Eval g [x; y]]).
-Proof.
-  intros digest sha. exists "f"%string, "g"%string, wit_x, wit_y.
-  exact (eval_arity_collision digest sha).
-Qed.
-Print Assumptions C45_distinct_trees_distinct_keys_arity_refuted.
-
-(* Mutating one leaf anywhere in a tree (any surrounding context of operations and
-   sibling subtrees) changes the key.  Instances: projections differing only in the domain
-   size, a variable against its previous-time-step / previous-iterate copy, index arrays
-   differing in one (arbitrarily late) entry. *)
+(* Mutating one leaf anywhere in a tree - under any path of operation nodes and function
+   nodes with arbitrary sibling subtrees - changes the key.  Instances: projections differing
+   only in the domain size, a variable against its previous-time-step / previous-iterate
+   copy, index arrays differing in one (arbitrarily late) entry. *)
 Theorem C45_single_leaf_mutation_changes_key :
   forall (digest : Type) (sha : buffer -> digest),
     (forall a b, sha a = sha b -> a = b) ->
-    forall (ctx : list (binop * bool * tree leaf)) (l1 l2 : leaf),
-      forallb (fun x => eval_free (snd x)) ctx = true -> l1 <> l2 ->
+    forall (ctx : list frame) (l1 l2 : leaf), l1 <> l2 ->
       okey digest sha (plug ctx (Leaf l1)) <> okey digest sha (plug ctx (Leaf l2)).
 Proof. exact distinct_leaves_distinct_keys. Qed.
 Print Assumptions C45_single_leaf_mutation_changes_key.
@@ -100,16 +95,15 @@ Proof. exact join_injective. Qed.
 Print Assumptions C45_join_injective.
 
 (* The boolean the correspondence compares with the implementation is key equality under
-   an injective hash, i.e. (on eval-free trees) structural equality of the trees. *)
+   an injective hash, i.e. structural equality of the trees (all trees). *)
 Theorem C45_tie_decides_tree_equality :
-  forall t1 t2 : tree leaf, eval_free t1 = true -> eval_free t2 = true ->
-    (key_eqb t1 t2 = true <-> t1 = t2).
+  forall t1 t2 : tree leaf, key_eqb t1 t2 = true <-> t1 = t2.
 Proof. exact key_eqb_is_tree_equality. Qed.
 Print Assumptions C45_tie_decides_tree_equality.
 
-(* Non-vacuity: the three collisions of the unrepaired code are distinct leaves (so the
-   mutation theorem applies to them, in a non-trivial context), and an injective [sha]
-   exists. *)
+(* Non-vacuity: the collisions of the unrepaired code are distinct leaves / trees (so the
+   theorems apply to them, in a non-trivial context with a function node), and an injective
+   [sha] exists. *)
 Example C45_nonvacuous :
   let p1 := {| p_range := [0; 1]; p_domain := [0; 1]; p_domain_size := 3;
                p_range_size := 2; p_transposed := false |}%Z in
@@ -117,14 +111,15 @@ Example C45_nonvacuous :
                p_range_size := 2; p_transposed := false |}%Z in
   let x := LVar "x" 0 (-1) (-1) in
   let xprev := LVar "x" 0 0 (-1) in
-  let ctx := [(OAdd, false, Leaf x); (OMul, true, Leaf (LScalar 2))]%Z in
+  let ctx := [FBinR OAdd (Leaf x); FEval "f" [Leaf (LScalar 1)] [Leaf x];
+              FBinL OMul (Leaf (LScalar 2))]%Z in
   (forall a b : buffer, (fun c : buffer => c) a = (fun c => c) b -> a = b) /\
   LProj p1 <> LProj p2 /\ x <> xprev /\
-  forallb (fun c => eval_free (snd c)) ctx = true /\
   key_eqb (plug ctx (Leaf (LProj p1))) (plug ctx (Leaf (LProj p2))) = false /\
   key_eqb (plug ctx (Leaf x)) (plug ctx (Leaf xprev)) = false /\
   key_eqb (plug ctx (Leaf x)) (plug ctx (Leaf x)) = true /\
-  key_eqb (Eval "exp" [Leaf x]) (Eval "log" [Leaf x]) = true.
+  key_eqb (Eval "exp" [Leaf x]) (Eval "log" [Leaf x]) = false /\
+  key_eqb (Eval "f" [Eval "g" [Leaf x]; Leaf xprev]) (Eval "f" [Eval "g" [Leaf x; Leaf xprev]]) = false.
 Proof.
   cbv zeta. repeat split; try (vm_compute; reflexivity); try discriminate. auto.
 Qed.
